@@ -371,6 +371,22 @@ func VerifHarness_C12_insync() {
 		w.deliver()
 		u.handleMessage(ctx, altered)
 	}
+	if verifrt.Choose("the-peer-keeps-sending-that-body", 2) == 1 {
+		// a persistent peer: the forged body again before every step of the trusted side
+		for r := 0; r < 8 && !w.converged(); r++ {
+			u.handleMessage(ctx, altered)
+			if w.deliver() {
+				u.handleMessage(ctx, altered)
+			}
+			w.process()
+			u.handleMessage(ctx, altered)
+			w.poll()
+		}
+		verifrt.Note("while the peer keeps sending: node height %d tip %s", k.node.blocks.LastHeight(), tree.byHash[*k.node.blocks.LastHash()])
+		verifrt.Sig("insync", order, "stall-while-the-peer-keeps-sending")
+		verifrt.Assert(w.converged(), "C12.no-stall.trusted-sync-converges-while-the-peer-keeps-sending")
+		verifrt.Reach("C12.insync.persistent-peer")
+	}
 	w.settle(5)
 	vkChainLinked(ctx, k.node, "closure")
 	verifrt.Note("closure: node height %d tip %s ready=%v", k.node.blocks.LastHeight(), tree.byHash[*k.node.blocks.LastHash()], k.node.state.IsReady())
